@@ -20,8 +20,12 @@ pub const FOR_IF: usize = 9;
 pub const CAPTURE: usize = 10;
 pub const DEEP: usize = 11;
 pub const CHILD_TOP: usize = 12;
+pub const INC_IN_SET: usize = 13;
+pub const INC_IN_FILTER: usize = 14;
+pub const INC_IN_CALL_BODY: usize = 15;
+pub const COMP_IN_CAPTURE: usize = 16;
 
-pub const SITES: [&str; 13] = [
+pub const SITES: [&str; 17] = [
     "top",               // entry template, top level
     "block",             // inside a block of the entry template (which extends base.html)
     "super",             // block of the parent, reached through super() of the entry template
@@ -35,6 +39,12 @@ pub const SITES: [&str; 13] = [
     "capture",           // inside a filter section (capture buffer)
     "deep",              // component body <- include <- parent block <- super() of the child
     "child-top",         // top level of a child template, outside blocks (parsed and validated, never rendered)
+    // the call site itself sits inside a capture (seeded change C12-2: the `called from` note of an
+    // include was dropped while a capture was open)
+    "include-in-set-block",     // included template, the include tag inside `{% set v %}..{% endset %}`
+    "include-in-filter",        // included template, the include tag inside a filter section
+    "include-in-call-body",     // included template, the include tag inside the body of a component call
+    "comp-in-capture",          // component body, the call inside a filter section
 ];
 
 /// bit masks over sites
@@ -47,13 +57,13 @@ pub const fn m(sites: &[usize]) -> u32 {
     }
     r
 }
-pub const ALL: u32 = (1 << 13) - 1;
+pub const ALL: u32 = (1 << 17) - 1;
 /// sites whose code is executed by rendering entry.html
 pub const RENDERED: u32 = ALL & !m(&[CHILD_TOP]);
 /// sites where a `{% block %}` may be written (not inside a component definition / for / if)
-pub const BLOCK_OK: u32 = m(&[TOP, BLOCK, SUPER, PARENT_TOP, INCLUDE, INCLUDE2, CALL_BODY, CAPTURE]);
+pub const BLOCK_OK: u32 = m(&[TOP, BLOCK, SUPER, PARENT_TOP, INCLUDE, INCLUDE2, CALL_BODY, CAPTURE, INC_IN_SET, INC_IN_FILTER, INC_IN_CALL_BODY]);
 /// sites at the top level of a file, where a component definition / `extends` may be written
-pub const FILE_TOP: u32 = m(&[TOP, PARENT_TOP, INCLUDE, INCLUDE2, CHILD_TOP]);
+pub const FILE_TOP: u32 = m(&[TOP, PARENT_TOP, INCLUDE, INCLUDE2, CHILD_TOP, INC_IN_SET, INC_IN_FILTER, INC_IN_CALL_BODY]);
 
 /// What precedes the snippet (DESIGN §4 C12 paddings, plus one mixed form).
 pub const PADS: [(&str, &str); 6] = [
@@ -102,7 +112,7 @@ const CARD_TAG: &str = "{{ <Card /> }}";
 
 /// sites where the planted text runs to the end of its file (so that a snippet planted without
 /// tail is followed by the end of input)
-pub const FILE_END: u32 = m(&[TOP, INCLUDE, INCLUDE2]);
+pub const FILE_END: u32 = m(&[TOP, INCLUDE, INCLUDE2, INC_IN_SET, INC_IN_FILTER, INC_IN_CALL_BODY]);
 
 pub fn plant(site: usize, pad: &str, snippet: &str, tail: bool) -> Planted {
     assert!(tail || FILE_END & (1 << site) != 0);
@@ -213,6 +223,27 @@ pub fn plant(site: usize, pad: &str, snippet: &str, tail: bool) -> Planted {
                 "entry.html",
                 "{% extends \"base.html\" %}{% block main %}<{{ super() }}>{% endblock main %}".into(),
             ));
+        }
+        INC_IN_SET | INC_IN_FILTER | INC_IN_CALL_BODY => {
+            file = "inc1.html";
+            offset = at("");
+            let (open, close) = match site {
+                INC_IN_SET => ("{% set v %}", "{% endset %}{{ v }}"),
+                INC_IN_FILTER => ("{% filter upper %}", "{% endfilter %}"),
+                _ => ("{% <Box> %}", "{% </Box> %}"),
+            };
+            let entry = format!("top é\n  {open}x{INC1_TAG}y{close}\nend\n");
+            tpls.push(("inc1.html", body));
+            calls.push(("entry.html", tag_range(&entry, INC1_TAG)));
+            tpls.push(("entry.html", entry));
+        }
+        COMP_IN_CAPTURE => {
+            file = "comps.html";
+            offset = 0;
+            card_body = body;
+            let entry = format!("a\n😀 {{% filter upper %}}{CARD_TAG}{{% endfilter %}}\n");
+            calls.push(("entry.html", tag_range(&entry, CARD_TAG)));
+            tpls.push(("entry.html", entry));
         }
         CHILD_TOP => {
             let pre = "{% extends \"base.html\" %}\n";
